@@ -96,10 +96,122 @@ func init() {
 	}
 	opTable["h.obs"] = obs
 	opTable["p.obs"] = obs
+	// h.hdr k: the slice HEADERS of the live position in slot k, as far as they do not depend on append's growth policy
+	opTable["h.hdr"] = func(s *Session, a []string) string {
+		st := allocOf(s)
+		k := atoi(a[0])
+		if st.objs[k] == nil || !st.live[k] {
+			return "dead"
+		}
+		return hdrStr(st.objs[k])
+	}
+	// h.sep: are the storage windows reachable from distinct objects (live positions and dead buffers) pairwise disjoint?
+	opTable["h.sep"] = func(s *Session, a []string) string {
+		st := allocOf(s)
+		type win struct{ lo, hi uintptr }
+		var wins [16][]win
+		for i := range st.objs {
+			if st.objs[i] == nil {
+				continue
+			}
+			v := st.objs[i].VerifStore()
+			w := []win{{v.Obj, v.ObjEnd}, {v.W, v.W + 8*uintptr(v.WCap)}, {v.H, v.H + uintptr(v.HCap)}, {v.S, v.S + 8*uintptr(v.SCap)}}
+			if st.live[i] {
+				w = append(w, win{v.B, v.B + 8*uintptr(v.BCap)})
+			}
+			wins[i] = w
+		}
+		for i := range wins {
+			for j := i + 1; j < len(wins); j++ {
+				for _, x := range wins[i] {
+					for _, y := range wins[j] {
+						if x.lo < x.hi && y.lo < y.hi && x.lo < y.hi && y.lo < x.hi {
+							return "sep=0"
+						}
+					}
+				}
+			}
+		}
+		return "sep=1"
+	}
+}
+
+func hdrStr(p *tak.Position) string {
+	v := p.VerifStore()
+	n := p.Size()
+	in := func(x uintptr) bool { return v.Obj <= x && x < v.ObjEnd }
+	out := ""
+	wOwn := in(v.W)
+	if wOwn {
+		out = fmt.Sprintf("w=own wlen=%d wcap=%d", v.WLen, v.WCap)
+	} else {
+		out = fmt.Sprintf("w=ext wlen=%d", v.WLen)
+	}
+	switch {
+	case !wOwn:
+		// WhiteGroups lives in an array allocated by append: its capacity, hence where BlackGroups ends up, is growth policy
+		out += fmt.Sprintf(" b=? len=%d", v.BLen)
+	case v.BCap == 0:
+		out += " b=empty"
+	case v.W <= v.B && v.B <= v.W+8*uintptr(v.WCap):
+		out += fmt.Sprintf(" b=inw off=%d len=%d cap=%d", (v.B-v.W)/8, v.BLen, v.BCap)
+	default:
+		out += fmt.Sprintf(" b=ext len=%d", v.BLen)
+	}
+	if in(v.H) && v.HLen == n*n && v.HCap == n*n {
+		out += " h=own"
+	} else {
+		out += " h=BAD"
+	}
+	if in(v.S) && v.SLen == n*n && v.SCap == n*n {
+		out += " s=own"
+	} else {
+		out += " s=BAD"
+	}
+	return out
+}
+
+// dominoBoard: the board tiled with two-stone groups of alternating colours (neighbouring dominoes differ in
+// colour), some knocked out.  From size 5 up that is more road groups than the 2*size entries of alloc.Groups, so
+// analyze()'s second FloodGroups call appends beyond capacity and BlackGroups moves to an array outside the object.
+func dominoBoard(r *RNG, size int) *tak.Position {
+	board := make([][]tak.Square, size)
+	for y := range board {
+		board[y] = make([]tak.Square, size)
+	}
+	drop := r.Intn(25) // per cent of dominoes left out
+	for y := 0; y < size; y++ {
+		for k := 0; 2*k+1 < size; k++ {
+			if r.Intn(100) < drop {
+				continue
+			}
+			col := tak.White
+			if (k+y)%2 == 1 {
+				col = tak.Black
+			}
+			board[y][2*k] = tak.Square{tak.MakePiece(col, tak.Flat)}
+			board[y][2*k+1] = tak.Square{tak.MakePiece(col, tak.Flat)}
+		}
+		if size%2 == 1 && y%2 == 0 && y+1 < size && r.Chance(3, 4) {
+			// odd sizes: vertical dominoes in the last column
+			col := tak.White
+			if (y/2+size/2)%2 == 1 {
+				col = tak.Black
+			}
+			board[y][size-1] = tak.Square{tak.MakePiece(col, tak.Flat)}
+			board[y+1][size-1] = tak.Square{tak.MakePiece(col, tak.Flat)}
+		}
+	}
+	cfg := tak.Config{Size: size, BlackWinsTies: r.Chance(1, 2), Pieces: size*size + 2, Capstones: 2}
+	p, err := tak.FromSquares(cfg, board, 2+r.Intn(60))
+	if err != nil {
+		panic(err)
+	}
+	return p
 }
 
 func genC09(c *Ctx) {
-	n := c.Scale(1600, 320000)
+	n := c.Scale(1400, 200000)
 	const nslots = 6
 	for k := 0; k < n; k++ {
 		c.Emit(fmt.Sprintf("case %d", k))
@@ -112,13 +224,19 @@ func genC09(c *Ctx) {
 			c.Emit(fmt.Sprintf("h.new 0 %d %d %d %d", size, cfg.Pieces, cfg.Capstones, b2i(cfg.BlackWinsTies)))
 		} else {
 			var p *tak.Position
-			if x := c.R.Intn(9); x < 3 {
+			switch x := c.R.Intn(6); {
+			case x == 0:
+				p = dominoBoard(c.R, size)
+				c.Count("src.domino")
+			case x <= 2:
 				p = roadBoard(c.R, size)
-			} else if x < 6 {
+				c.Count("src.roadboard")
+			case x == 3:
 				p = groupsBoard(c.R, size)
-				c.Count("start.groupsboard")
-			} else {
+				c.Count("src.groupsboard")
+			default:
 				p = constructed(c.R, size)
+				c.Count("src.constructed")
 			}
 			c.Emit("h.fromraw 0 " + encPos(p))
 		}
@@ -186,8 +304,10 @@ func genC09(c *Ctx) {
 				if st.objs[i] != nil && st.live[i] {
 					c.Emit(fmt.Sprintf("h.obs %d", i))
 					c.Emit(fmt.Sprintf("p.obs %d", i))
+					c.Emit(fmt.Sprintf("h.hdr %d", i))
 				}
 			}
+			c.Emit("h.sep")
 		}
 	}
 }
